@@ -79,6 +79,7 @@ func cmdRun(args []string) int {
 	params := paramFlags{}
 	fs.Var(params, "p", "harness parameter k=v (repeatable)")
 	cpuprof := fs.String("cpuprofile", "", "write a CPU profile")
+	hist := fs.String("hist", "", "histogram of paths by these Choose names (a+b)")
 	fs.Parse(args)
 	if *cpuprof != "" {
 		f, _ := os.Create(*cpuprof)
@@ -93,6 +94,7 @@ func cmdRun(args []string) int {
 	}
 	defer ld.cleanup()
 	cfg := RunConfig{Workers: *workers, Budget: *budget, MaxPaths: *maxPaths, Solver: *solver, Cross: *cross, TimeoutMs: 20000, CapConc: 64, KeepPaths: 5, Verbose: *verbose}
+	cfg.Hist = *hist
 	if *timeout > 0 {
 		cfg.Deadline = time.Now().Add(*timeout)
 	}
@@ -175,6 +177,23 @@ func printSummary(res *RunResult) {
 	fmt.Printf("queries: feas sat=%d unsat=%d unknown=%d | prop sat=%d unsat=%d unknown=%d | front-end=%d | solver calls=%d time=%.1fs errors=%d\n",
 		res.Q.FeasSat, res.Q.FeasUnsat, res.Q.FeasUnknown, res.Q.PropSat, res.Q.PropUnsat, res.Q.PropUnknown, res.Q.FrontEnd, res.SolverQ, res.SolverTime.Seconds(), res.SolverErrs)
 	fmt.Printf("candidates=%d known=%d wall=%.1fs\n", len(res.Cands), len(res.Known), res.Wall.Seconds())
+	if res.ForkSites != nil {
+		type kv struct {
+			k string
+			v int
+		}
+		var l []kv
+		for k, v := range res.ForkSites {
+			l = append(l, kv{k, v})
+		}
+		sort.Slice(l, func(a, b int) bool { return l[a].v > l[b].v })
+		for k, e := range l {
+			if k >= 25 {
+				break
+			}
+			fmt.Printf("    forks %-8d %s\n", e.v, e.k)
+		}
+	}
 	for _, s := range res.Incomplete {
 		if len(s) > 2000 {
 			s = s[:2000]
